@@ -431,7 +431,78 @@ def typing_cache_conflicts(programs_in_order):
     return dropped
 
 
+def fam_local_defs(r, n):
+    """Definitions with names from a SMALL pool and varying meaning: two unrelated programs define
+    a `Node`, an `Item`, a `helper` ... differently (name-keyed or annotation-keyed caches)."""
+    lines = ["import enum", "from dataclasses import dataclass", "from typing import Dict, Generic, List, NamedTuple, Optional, Protocol, TypeVar, Union",
+             "from typing_extensions import TypedDict", ""]
+    T = r.choice(["int", "str", "bytes", "float"])
+    U = r.choice(["int", "str", "bytes", "float"])
+    lit = TYPED_EXPR
+    kind = r.below(8)
+    if kind == 0:
+        lines += ["class Node:",
+                  "    def __init__(self, label: %s, children: Optional[List[\"Node\"]] = None, parent: \"Optional[Node]\" = None) -> None:" % T,
+                  "        self.label = label", "        self.children = children or []", "        self.parent = parent", "",
+                  "    def walk(self) -> List[\"Node\"]:", "        return [self]", "",
+                  "def use_node_%d() -> None:" % n, "    a = Node(%s)" % lit[T], "    b = Node(%s, [a, a])" % lit[U], "    c = Node(%s, children=[a, b], parent=a)" % lit[T],
+                  "    reveal_type(c.label)", "    reveal_type(b.walk())", "    reveal_type(c.children)", "    d = Node(%s, [%s])" % (lit[T], lit[U]), "    print(d)", ""]
+    elif kind == 1:
+        members = r.sample(["RED", "GREEN", "BLUE", "CYAN", "BLACK"], r.randint(2, 4))
+        lines += ["class Color(enum.Enum):"] + ["    %s = %d" % (m, i + 1) for i, m in enumerate(members)] + ["",
+                  "def use_color_%d(c: Color) -> None:" % n, "    if c is Color.%s:" % members[0], "        reveal_type(c)", "    else:", "        reveal_type(c)",
+                  "    if c == Color.%s or c == Color.%s:" % (members[-1], members[0]), "        reveal_type(c)", "    print(Color.PURPLE)", ""]
+    elif kind == 2:
+        lines += ["@dataclass", "class Item:", "    name: %s" % T, "    count: %s = %s" % (U, lit[U]), "",
+                  "def use_item_%d() -> None:" % n, "    a = Item(%s)" % lit[T], "    b = Item(%s, %s)" % (lit[U], lit[T]), "    reveal_type(a.count)", "    reveal_type(b)",
+                  "    c = Item(name=%s, count=%s, extra=1)" % (lit[T], lit[U]), "    print(c)", ""]
+    elif kind == 3:
+        lines += ["class Shape(Protocol):", "    def area(self) -> %s: ..." % T, "", "class Square:", "    def area(self) -> %s:" % U, "        return %s" % lit[U], "",
+                  "def use_shape_%d() -> None:" % n, "    s: Shape = Square()", "    reveal_type(s.area())", "    t: List[Shape] = [Square(), Square()]", "    print(t)", ""]
+    elif kind == 4:
+        lines += ["T = TypeVar(\"T\")", "", "class Box(Generic[T]):", "    def __init__(self, item: T) -> None:", "        self.item = item", "",
+                  "    def get(self) -> T:", "        return self.item", "",
+                  "def use_box_%d() -> None:" % n, "    reveal_type(Box(%s).get())" % lit[T], "    b: Box[%s] = Box(%s)" % (T, lit[U]), "    reveal_type(b)",
+                  "    c: Dict[str, Box[%s]] = {\"k\": Box(%s)}" % (U, lit[T]), "    print(c)", ""]
+    elif kind == 5:
+        lines += ["class Record(NamedTuple):", "    key: %s" % T, "    value: %s = %s" % (U, lit[U]), "",
+                  "class Payload(TypedDict):", "    key: %s" % T, "    value: %s" % U, "",
+                  "def use_record_%d() -> None:" % n, "    r1 = Record(%s)" % lit[T], "    r2 = Record(%s, %s)" % (lit[U], lit[T]), "    reveal_type(r1.value)", "    reveal_type(r2[0])",
+                  "    p: Payload = {\"key\": %s, \"value\": %s}" % (lit[U], lit[T]), "    print(p)", ""]
+    elif kind == 6:
+        lines += ["def helper(a: %s, b: %s = %s) -> %s:" % (T, U, lit[U], T), "    return a", "",
+                  "def process(items: List[%s], flag: bool = False) -> Dict[str, %s]:" % (T, U), "    return {}", "",
+                  "def caller_%d() -> None:" % n, "    reveal_type(helper(%s))" % lit[T], "    helper(%s, %s)" % (lit[U], lit[T]), "    reveal_type(process([%s]))" % lit[T],
+                  "    process([%s], flag=1, extra=2)" % lit[U], ""]
+    else:
+        lines += ["class Base:", "    def run(self, x: %s) -> %s:" % (T, U), "        return %s" % lit[U], "", "class Child(Base):", "    def run(self, x: %s) -> %s:" % (U, T),
+                  "        return %s" % lit[T], "", "def use_child_%d(o: Union[Base, Child]) -> None:" % n, "    reveal_type(o.run(%s))" % lit[T], "    reveal_type(Child().run(%s))" % lit[U], ""]
+    return lines
+
+
+def fam_class_attrs(r, n):
+    """Several reads of the same never-set attribute, several diagnostics with equal keys."""
+    name = r.choice(["Holder", "Widget", "Panel"])
+    attrs = r.sample(["colour", "size", "weight", "depth"], r.randint(1, 3))
+    lines = ["class %s:" % name, "    def __init__(self) -> None:", "        self.present = %d" % n, ""]
+    for k in range(r.randint(2, 4)):
+        lines += ["    def m%d(self) -> object:" % k]
+        for _ in range(r.randint(1, 3)):
+            a = r.choice(attrs)
+            form = r.below(3)
+            if form == 0:
+                lines.append("        print(self.%s)" % a)
+            elif form == 1:
+                lines += ["        for i in range(2):", "            print(self.%s, self.%s)" % (a, r.choice(attrs))]
+            else:
+                lines.append("        x%d = [self.%s, self.present, self.%s]" % (r.below(50), a, r.choice(attrs)))
+        lines += ["        return self.present", ""]
+    return lines
+
+
 FAMILIES = {
+    "local_defs": fam_local_defs,
+    "class_attrs": fam_class_attrs,
     "generic_protocol": fam_generic_protocol,
     "recursive_protocol": fam_recursive_protocol,
     "overloads": fam_overloads,
